@@ -58,7 +58,8 @@ def main(tier: str, seed: int, replay: str | None = None) -> int:
     for _ in range(nh):
         h = E.gen_engine_hier(rng)
         h.build()
-        items.append((h, [(E.gen_program(rng, h, constrained=(k % 4 != 0)), []) for k in range(npg)]))
+        items.append((h, [((E.gen_bound_then_other(rng, h) if k % 5 == 4 else
+                            E.gen_program(rng, h, constrained=(k % 4 != 0))), []) for k in range(npg)]))
     stats = {"accepted": 0, "rejected": 0, "checker_validated": 0, "groundings": 0,
              "resolved_constraints_checked": 0, "errors": {}}
     distinct = set()
